@@ -60,3 +60,109 @@ package graph
 //@   wf $x != nil
 //@   less Nodes.Sort$5
 //@   key $x.Info == $y.Info
+
+// ---- C04: flat, cum and edge values ----
+
+//@ func Node.FlatValue arith bv
+//@   requires n != nil
+//@   ensures result == ite(n.FlatDiv == 0, n.Flat, n.Flat / n.FlatDiv)
+//@ func Node.CumValue arith bv
+//@   requires n != nil
+//@   ensures result == ite(n.CumDiv == 0, n.Cum, n.Cum / n.CumDiv)
+//@ func Tag.FlatValue arith bv
+//@   requires t != nil
+//@   ensures result == ite(t.FlatDiv == 0, t.Flat, t.Flat / t.FlatDiv)
+//@ func Tag.CumValue arith bv
+//@   requires t != nil
+//@   ensures result == ite(t.CumDiv == 0, t.Cum, t.Cum / t.CumDiv)
+//@ func Edge.WeightValue arith bv
+//@   requires e != nil
+//@   ensures result == ite(e.WeightDiv == 0, e.Weight, e.Weight / e.WeightDiv)
+
+//@ func TagMap.findOrAddTag arith bv
+//@   requires m != nil
+//@   ensures result != nil && has(m, label) && m[label] == result
+//@   ensures old(has(m, label) && m[label] != nil) ==> result == old(m[label]) && result.Flat == old(m[label].Flat) && result.Cum == old(m[label].Cum)
+//@   ensures c1: !old(has(m, label) && m[label] != nil) ==> fresh(result)
+//@   ensures c2: !old(has(m, label) && m[label] != nil) ==> result.Name == label && result.Unit == unit && result.Value == value
+//@   ensures c3: !old(has(m, label) && m[label] != nil) ==> result.Flat == 0 && result.FlatDiv == 0 && result.Cum == 0 && result.CumDiv == 0
+//@   ensures forall k string :: k != label ==> (has(m, k) <==> old(has(m, k))) && m[k] == old(m[k])
+
+// addSample: the node's own counters. flat ==> exactly Flat += w, FlatDiv += dw; otherwise exactly Cum += w, CumDiv += dw.
+//@ func Node.addSample arith bv funcvalues=pure
+//@   requires n != nil && n.LabelTags != nil && n.NumericTags != nil
+//@   requires units_ok: forall k string :: has(numLabel, k) && has(numUnit, k) && len(numUnit[k]) > 0 ==> len(numUnit[k]) >= len(numLabel[k])
+//@   ensures flat_upd: flat ==> n.Flat == old(n.Flat) + w && n.FlatDiv == old(n.FlatDiv) + dw && n.Cum == old(n.Cum) && n.CumDiv == old(n.CumDiv)
+//@   ensures cum_upd: !flat ==> n.Cum == old(n.Cum) + w && n.CumDiv == old(n.CumDiv) + dw && n.Flat == old(n.Flat) && n.FlatDiv == old(n.FlatDiv)
+//@   ensures info_kept: n.Info == old(n.Info) && n.In == old(n.In) && n.Out == old(n.Out) && n.Function == old(n.Function)
+
+// AddToEdgeDiv: under the symmetry invariant of the edge maps the panic is unreachable.
+//@ func Node.AddToEdgeDiv arith bv
+//@   requires n != nil && to != nil && n.Out != nil && to.In != nil
+//@   requires sym: (has(n.Out, to) <==> has(to.In, n)) && n.Out[to] == to.In[n]
+//@   ensures sym_kept: has(n.Out, to) && has(to.In, n) && n.Out[to] == to.In[n] && n.Out[to] != nil
+//@   ensures existing: old(n.Out[to] != nil) ==> n.Out[to] == old(n.Out[to])
+//@       && n.Out[to].Weight == old(n.Out[to].Weight) + v && n.Out[to].WeightDiv == old(n.Out[to].WeightDiv) + dv
+//@       && (n.Out[to].Residual <==> old(n.Out[to].Residual) || residual) && (n.Out[to].Inline <==> old(n.Out[to].Inline) && inline)
+//@   ensures created: old(n.Out[to] == nil) ==> fresh(n.Out[to]) && n.Out[to].Src == n && n.Out[to].Dest == to
+//@       && n.Out[to].Weight == v && n.Out[to].WeightDiv == dv && (n.Out[to].Residual <==> residual) && (n.Out[to].Inline <==> inline)
+
+// FindOrInsertNode: nil exactly for entries outside the kept set; otherwise the unique node of that Info.
+//@ func NodeMap.FindOrInsertNode arith bv
+//@   requires nm != nil
+//@   requires nonnil: forall k NodeInfo :: has(nm, k) ==> nm[k] != nil
+//@   ensures nonnil_kept: forall k NodeInfo :: has(nm, k) ==> nm[k] != nil
+//@   ensures dropped: result == nil <==> (kept != nil && !has(kept, info))
+//@   ensures found: result != nil ==> has(nm, info) && nm[info] == result
+//@   ensures found_info: result != nil && !old(has(nm, info)) ==> result.Info == info
+//@   ensures existing: old(has(nm, info)) && result != nil ==> result == old(nm[info])
+//@   ensures grows: forall k NodeInfo :: old(has(nm, k)) ==> has(nm, k) && nm[k] == old(nm[k])
+
+// ---- C05: trimming ----
+
+//@ spec func abscum(n *Node) int64 = ite(n.Cum < 0, -n.Cum, n.Cum)
+
+//@ func getNodesAboveCumCutoff arith bv
+//@   requires forall i int :: 0 <= i && i < len(nodes) ==> nodes[i] != nil
+//@   ensures kept: forall k int :: 0 <= k && k < len(result) ==> exists i int :: 0 <= i && i < len(nodes) && result[k] == nodes[i] && abscum(nodes[i]) >= nodeCutoff
+//@   ensures complete: forall i int :: 0 <= i && i < len(nodes) && abscum(nodes[i]) >= nodeCutoff ==> exists k int :: 0 <= k && k < len(result) && result[k] == nodes[i]
+//@   ensures count: len(result) <= len(nodes)
+//@   ensures unchanged: forall i int :: 0 <= i && i < len(nodes) ==> nodes[i] == old(nodes[i])
+//@   loop 1
+//@     invariant 0 <= $i && $i <= len(nodes)
+//@     invariant fresh(cutoffNodes) && len(cutoffNodes) <= $i
+//@     invariant forall i int :: 0 <= i && i < len(nodes) ==> nodes[i] == old(nodes[i])
+//@     invariant forall k int :: 0 <= k && k < len(cutoffNodes) ==> exists i int :: 0 <= i && i < $i && cutoffNodes[k] == nodes[i] && abscum(nodes[i]) >= nodeCutoff
+//@     invariant forall i int :: 0 <= i && i < $i && abscum(nodes[i]) >= nodeCutoff ==> exists k int :: 0 <= k && k < len(cutoffNodes) && cutoffNodes[k] == nodes[i]
+
+//@ func makeNodeSet arith bv
+//@   requires forall i int :: 0 <= i && i < len(nodes) ==> nodes[i] != nil
+//@   ensures result != nil
+//@   ensures members: forall i int :: 0 <= i && i < len(nodes) && abscum(nodes[i]) >= nodeCutoff ==> has(result, nodes[i].Info) && result[nodes[i].Info]
+//@   ensures only: forall k NodeInfo :: has(result, k) ==> exists i int :: 0 <= i && i < len(nodes) && nodes[i].Info == k && abscum(nodes[i]) >= nodeCutoff
+//@   loop 1
+//@     invariant 0 <= $i && $i <= len(cutNodes)
+//@     invariant forall i int :: 0 <= i && i < $i ==> has(kept, cutNodes[i].Info) && kept[cutNodes[i].Info]
+//@     invariant forall k NodeInfo :: has(kept, k) ==> exists i int :: 0 <= i && i < $i && cutNodes[i].Info == k
+
+//@ func Graph.selectTopNodes arith bv
+//@   requires g != nil && maxNodes >= 0
+//@   ensures prefix: len(result) <= len(g.Nodes) && same_elems(result, g.Nodes[:len(result)])
+//@   ensures text: !visualMode ==> len(result) == ite(maxNodes > len(g.Nodes), len(g.Nodes), maxNodes)
+//@   loop 1
+//@     invariant 0 <= $i && $i <= len(g.Nodes) && maxNodes > 0
+
+// TrimLowFrequencyEdges: no panic for any graph whose edge maps hold non-nil keys and values;
+// it only deletes map entries (edge and node values are never written: static frame check).
+//@ spec func edgesok(g *Graph) bool = forall i int :: 0 <= i && i < len(g.Nodes) ==> g.Nodes[i] != nil
+//@     && forall k *Node :: has(g.Nodes[i].In, k) ==> k != nil && g.Nodes[i].In[k] != nil
+//@ func Graph.TrimLowFrequencyEdges arith bv
+//@   requires g != nil && edgesok(g)
+//@   ensures result >= 0
+//@   ensures edgesok(g)
+//@   loop 1
+//@     invariant 0 <= $i && $i <= len(g.Nodes) && droppedEdges >= 0
+//@     invariant edgesok(g)
+//@   loop 2
+//@     invariant droppedEdges >= 0
+//@     invariant edgesok(g)
